@@ -242,6 +242,12 @@ def _collect(fi, inline_depth=60, keep=()):
                 visit(s.orelse, ctx)
                 visit(s.finalbody, ctx)
             elif isinstance(s, ast.With):
+                for it in s.items:
+                    nm = dotted(it.context_expr.func if isinstance(it.context_expr, ast.Call) else it.context_expr) or ''
+                    # a context manager entered without binding a name is entered for what it does (a lock, numpy error
+                    # state, a pool); gradient bookkeeping switches do not touch results
+                    if it.optional_vars is None and nm.split('.')[-1] not in ('no_grad', 'inference_mode', 'enable_grad'):
+                        effects.append(Effect('with', list(ctx), None, inl(it.context_expr, s), s))
                 visit(s.body, ctx)
             elif isinstance(s, ast.Return):
                 effects.append(Effect('return', list(ctx), None, inl(s.value, s) if s.value is not None else None, s))
